@@ -28,6 +28,7 @@ type recFs struct {
 	calls   []fsCall
 	faultAt int    // 1-based index of the call that fails (0 = none)
 	kind    string // "error" | "short"
+	persist bool   // every call from faultAt on fails (the medium is gone), not only that one
 	name    string
 }
 
@@ -35,7 +36,7 @@ func newRecFs() *recFs { return &recFs{inner: afero.NewMemMapFs(), name: "MemMap
 
 func (r *recFs) hit(c fsCall) (int, bool) {
 	r.calls = append(r.calls, c)
-	return len(r.calls) - 1, r.faultAt == len(r.calls)
+	return len(r.calls) - 1, r.faultAt == len(r.calls) || (r.persist && r.faultAt > 0 && len(r.calls) > r.faultAt)
 }
 func (r *recFs) fail(i int) error {
 	r.calls[i].Err = errInjected.Error()
